@@ -245,7 +245,7 @@ func mergeValue(av, bv *val.V, f mergeFlags) *val.V {
 					t.Vals[i] = mergeValue(t.Vals[i], x, f)
 				} else {
 					if f.onlyExisting {
-						undef("d with ? and a longer right sequence")
+						continue // `?`: a position the left sequence does not have is not an existing entry
 					}
 					t.Vals = append(t.Vals, x.Copy())
 				}
